@@ -155,6 +155,7 @@ type Update struct {
 	ClusterList        []uint32
 	OTC                uint32 // ONLY_TO_CUSTOMER (0: absent)
 	Communities        []uint32
+	NextHop6LL         bool // MP_REACH next hop of 32 bytes: global + link-local address
 }
 
 func attr(flags, typ byte, val []byte) []byte {
@@ -229,7 +230,12 @@ func (u Update) Bytes() []byte {
 		}
 	}
 	if ann6 {
-		attrs = append(attrs, attr(0x80, 14, cat(u16(2), []byte{1, 16}, u.NextHop6[:], []byte{0}, mpr))...)
+		nh := u.NextHop6[:]
+		if u.NextHop6LL {
+			ll := Addr6(0xfe80000000000000, 0x42)
+			nh = cat(nh, ll[:])
+		}
+		attrs = append(attrs, attr(0x80, 14, cat(u16(2), []byte{1, byte(len(nh))}, nh, []byte{0}, mpr))...)
 	}
 	if wd6 {
 		attrs = append(attrs, attr(0x80, 15, cat(u16(2), []byte{1}, mpu))...)
